@@ -102,6 +102,9 @@ func errSlug(s string) string {
 	if strings.Contains(s, "nil pointer") || strings.Contains(s, "recovered:") {
 		return "panic"
 	}
+	if strings.Contains(s, "Upgrade client failed") {
+		return "upgrade-client-failed" // UpgradeClient hides the reason
+	}
 	for _, p := range []string{"failed to execute message; message index: 0: ", "cannot update client "} {
 		if i := strings.Index(s, p); i >= 0 {
 			s = s[i+len(p):]
